@@ -255,6 +255,18 @@ def build(prop_id: str, need_props=True) -> BuildResult:
     return r
 
 
+def coqchk(prop_id: str):
+    """Independent re-check of Props/<id>.vo and everything it depends on (thorough tier).
+    Returns (ok, axioms_text)."""
+    rc, out, _ = sh(["coqchk", "-silent", "-o", "-Q", "theories", "CBI", f"CBI.Props.{prop_id}"], cwd=COQ, timeout=3000)
+    summary = out[out.find("CONTEXT SUMMARY"):] if "CONTEXT SUMMARY" in out else out[-1500:]
+    m = re.search(r"\* Axioms:(.*?)\n\s*\n", summary, flags=re.S)
+    axioms = m.group(1).strip() if m else "?"
+    clean = rc == 0 and "type-in-type: <none>" in summary and "unsafe (co)fixpoints: <none>" in summary \
+        and "positivity is assumed: <none>" in summary
+    return clean, axioms, summary[-1500:]
+
+
 def _first_error(out: str) -> str:
     lines = out.splitlines()
     for i, l in enumerate(lines):
@@ -536,6 +548,55 @@ def run_check(chk: Check) -> int:
             b.broken.append(f"extraction cross-check (vm_compute vs OCaml) disagrees: {vm_bad[:2]}")
             model_ok = False
 
+    # DESIGN 2.3 step 3, widened: something is broken but no case of this run violates the
+    # property -> search I vs S on a larger budget (the thorough-tier generator, other seeds)
+    widened = 0
+    if (proof_broken or corr_bad or not model_ok) and not cand and os.environ.get("VERIF_NO_WIDEN") != "1":
+        t_w = time.time()
+        budget_s = 240 if chk.tier == "quick" else 900
+        for extra_seed in range(1, 6):
+            if cand or time.time() - t_w > budget_s:
+                break
+            try:
+                wide = type(chk)("thorough", chk.seed + 1000 * extra_seed)
+                wcases = [c for c in wide.generate() if chk.key(c) not in seen]
+            except Exception as e:  # noqa
+                notes.append(f"widened search: generator failed: {e}")
+                break
+            wcases = wcases[:20000]
+            step = 500
+            for i in range(0, len(wcases), step):
+                if cand or time.time() - t_w > budget_s:
+                    break
+                part = wcases[i:i + step]
+                try:
+                    raws = run_model(pid, [chk.encode(c) for c in part]) if model_ok else [None] * len(part)
+                except Exception:
+                    raws = [None] * len(part)
+                for c, mr in zip(part, raws):
+                    widened += 1
+                    try:
+                        sa = chk.spec(c, mr)
+                        if sa is None or not chk.in_domain(c, sa):
+                            continue
+                        ia = chk.impl(c)
+                        if chk.impl_view_for_spec(c, ia) != sa:
+                            cand.append((c, ia, sa))
+                    except Exception:
+                        continue
+        notes.append(f"widened I-vs-S search after a broken proof/correspondence: {widened} extra cases, {len(cand)} candidates")
+
+    chk_info = None
+    if chk.tier == "thorough" and b.proof_ok and os.environ.get("VERIF_NO_COQCHK") != "1":
+        ok_chk, axioms, summary = coqchk(pid)
+        chk_info = {"cmd": f"coqchk -silent -o -Q theories CBI CBI.Props.{pid}", "clean": ok_chk, "axioms": axioms}
+        if not ok_chk or axioms not in ("<none>",):
+            chk_info["summary"] = summary
+        if not ok_chk:
+            b.proof_ok = False
+            proof_broken = True
+            b.broken.append("coqchk does not accept the compiled development: " + summary[-300:])
+
     known = load_known(pid)
     reproduced = {}
     # candidates: classify
@@ -658,7 +719,10 @@ def run_check(chk: Check) -> int:
         "framework_self_test_problems": problems,
         "notes": notes,
         "build_wall_s": round(b.wall, 2),
+        "widened_search_cases": widened,
     }
+    if chk_info is not None:
+        cov["coqchk"] = chk_info
     cov.update(chk.stats)
     cov.update(chk.extra_coverage())
     ev = {
